@@ -43,7 +43,7 @@ def small : Tok → Option Nat
 
 /-- the checks of ob_params -/
 def paramsOk (chunk pre stats : Nat) : Bool :=
-  (chunk == 0 || (48 ≤ chunk && chunk ≤ 65536)) && (if chunk == 0 then pre ≤ 2048 else pre + 32 ≤ chunk) &&
+  (chunk == 0 || (48 ≤ chunk && chunk ≤ 65536)) && (if chunk == 0 then pre ≤ 2048 else pre + 16 ≤ chunk) &&
   stats ≤ 1 && !(stats == 1 && chunk == 0)
 
 /-- ob_open … ob_close: the pieces, then obstack_1grow (ob, 0); print sum, object without the terminator,
